@@ -3,7 +3,8 @@ use ckb_types::{
     core::{EpochNumber, EpochNumberWithFraction, ExtraHashView, HeaderView},
     packed::LightClientMessage,
     prelude::*,
-    utilities::merkle_mountain_range::VerifiableHeader,
+    utilities::{compact_to_difficulty, merkle_mountain_range::VerifiableHeader},
+    U256,
 };
 
 use super::{Status, StatusCode};
@@ -49,6 +50,12 @@ impl HeaderUtils for HeaderView {
 // Ref: https://github.com/nervosnetwork/ckb/blob/v0.112.1/util/types/src/utilities/merkle_mountain_range.rs#L212-L241
 pub(crate) trait VerifiableHeaderPatch {
     fn patched_is_valid(&self, mmr_activated_epoch_number: EpochNumber) -> bool;
+
+    /// The total difficulty, or `None` if it doesn't fit into 256 bits.
+    ///
+    /// `VerifiableHeader::total_difficulty()` aborts on overflow and all its inputs are provided
+    /// by the peer, so this has to be checked before that method is called.
+    fn checked_total_difficulty(&self) -> Option<U256>;
 }
 
 impl VerifiableHeaderPatch for VerifiableHeader {
@@ -87,5 +94,11 @@ impl VerifiableHeaderPatch for VerifiableHeader {
         let expected_extra_hash = extra_hash_view.extra_hash();
         let actual_extra_hash = self.header().extra_hash();
         expected_extra_hash == actual_extra_hash
+    }
+
+    fn checked_total_difficulty(&self) -> Option<U256> {
+        let parent_total_difficulty: U256 = self.parent_chain_root().total_difficulty().unpack();
+        let block_difficulty = compact_to_difficulty(self.header().compact_target());
+        parent_total_difficulty.checked_add(&block_difficulty)
     }
 }
